@@ -3,6 +3,7 @@ package chains
 import (
 	"bytes"
 	"database/sql"
+	"encoding/json"
 	"database/sql/driver"
 	"fmt"
 	"reflect"
@@ -40,6 +41,8 @@ const (
 	KNullStr0   = "nullstr0"
 	KNullI64    = "nulli64"
 	KBytes      = "bytes"
+	KHash       = "hash" // chains.Hash, a named []byte type
+	KRaw        = "raw"  // json.RawMessage
 	KValuer     = "valuer"
 	KPValuer    = "pvaluer"
 	KNilPValuer = "nilpvaluer"
@@ -51,13 +54,29 @@ const (
 	KF64s   = "f64s"
 	KAnys   = "anys"
 	KArr2   = "arr2"   // [2]string
+	KArr3   = "arr3"   // [3]int
+	KIDs    = "ids"    // chains.IDs ([]int64)
+	KNames  = "names"  // chains.Names ([]string)
 	KTuples = "tuples" // [][]interface{}
 )
 
 // IsSlice reports whether v expands to several placeholders.
 func (v Val) IsSlice() bool {
 	switch v.K {
-	case KStrs, KInts, KI64s, KF64s, KAnys, KArr2, KTuples:
+	case KStrs, KInts, KI64s, KF64s, KAnys, KArr2, KArr3, KIDs, KNames, KTuples:
+		return true
+	}
+	return false
+}
+
+// BytesLike: []byte and the named byte-slice types; each is ONE value.
+func (v Val) BytesLike() bool { return v.K == KBytes || v.K == KHash || v.K == KRaw }
+
+// EqList: the slice types clause.Eq/Neq expand to IN (...) by name; any other
+// slice or array reaching them is rendered by the generic value writer as "(?,?)".
+func (v Val) EqList() bool {
+	switch v.K {
+	case KStrs, KInts, KI64s, KAnys:
 		return true
 	}
 	return false
@@ -111,6 +130,10 @@ func (v Val) Go() interface{} {
 		return sql.NullInt64{Int64: v.I, Valid: true}
 	case KBytes:
 		return []byte(v.S)
+	case KHash:
+		return Hash(v.S)
+	case KRaw:
+		return json.RawMessage(v.S)
 	case KValuer:
 		return Wrapped{S: v.S}
 	case KPValuer:
@@ -151,6 +174,20 @@ func (v Val) Go() interface{} {
 		return out
 	case KArr2:
 		return [2]string{v.L[0].S, v.L[1].S}
+	case KArr3:
+		return [3]int{int(v.L[0].I), int(v.L[1].I), int(v.L[2].I)}
+	case KIDs:
+		out := make(IDs, len(v.L))
+		for i, e := range v.L {
+			out[i] = e.I
+		}
+		return out
+	case KNames:
+		out := make(Names, len(v.L))
+		for i, e := range v.L {
+			out[i] = e.S
+		}
+		return out
 	case KTuples:
 		out := make([][]interface{}, len(v.L))
 		for i, e := range v.L {
@@ -178,7 +215,7 @@ func (v Val) Leaves() []interface{} {
 		return []interface{}{v.time()}
 	case KNil, KNilPStr, KNullStr0, KNilPValuer:
 		return []interface{}{nil}
-	case KBytes:
+	case KBytes, KHash, KRaw:
 		return []interface{}{[]byte(v.S)}
 	case KGormValuer:
 		return []interface{}{v.S, v.I}
@@ -193,7 +230,7 @@ func (v Val) Leaves() []interface{} {
 // Tokens returns the sentinel texts that must never occur in SQL text.
 func (v Val) Tokens() []string {
 	switch v.K {
-	case KStr, KPStr, KNullStr, KValuer, KPValuer, KBytes:
+	case KStr, KPStr, KNullStr, KValuer, KPValuer, KBytes, KHash, KRaw:
 		return []string{tokenOf(v.S)}
 	case KInt, KI64, KUint, KPI64, KNullI64:
 		if v.I < 1000000 {
@@ -218,7 +255,7 @@ func (v Val) Tokens() []string {
 // change the statement if it were spliced into the text.
 func (v Val) Hostile() bool {
 	switch v.K {
-	case KStr, KPStr, KNullStr, KValuer, KPValuer, KBytes, KGormValuer:
+	case KStr, KPStr, KNullStr, KValuer, KPValuer, KBytes, KHash, KRaw, KGormValuer:
 		return strings.ContainsAny(v.S, "'\"`\\?@)($;-\n%")
 	}
 	for _, e := range v.L {
@@ -232,7 +269,7 @@ func (v Val) Hostile() bool {
 // String renders the value canonically.
 func (v Val) String() string {
 	switch v.K {
-	case KStr, KPStr, KNullStr, KValuer, KPValuer, KBytes:
+	case KStr, KPStr, KNullStr, KValuer, KPValuer, KBytes, KHash, KRaw:
 		return v.K + ":" + strconv.Quote(v.S)
 	case KInt, KI64, KUint, KPI64, KNullI64, KTime:
 		return v.K + ":" + strconv.FormatInt(v.I, 10)
